@@ -2,6 +2,7 @@ SPECIFICATION Spec
 CONSTANTS
   Cases <- MCCasesQ
   MACases <- MCMACasesQ
+  Variant = "ok"
 INVARIANT LeadingBatch
 INVARIANT OneHotDef
 INVARIANT MultiOneHotDef
